@@ -15,6 +15,12 @@ def run(ctx):
         why = "opens-mismatch" if set(rec["opens"]) != set(rec["expected"]) else ("no-working-key" if not rec["opens"] else ("master-key" if rec["masters"] != 1 or not rec["same_master"] else "key-hint"))
         ctx.violate("keys/%s/%s" % (opn, why), "history %s step %s op %s after backend op %s: opens=%s expected=%s keys=%s masters=%s hint_ok=%s" % (
             rec["history"], rec["step"], rec["op"], rec["seq"], rec["opens"], rec["expected"], rec["nkeys"], rec["masters"], rec["hint_ok"]), rec)
+    n2, bad2, lines2 = ctx.check_records("Fn_KeysMany", os.path.join(out, "recs_many.ndjson"), name="many")
+    for i in bad2[:100]:
+        rec = json.loads(lines2[i - 1])
+        ctx.violate("keys/limit/%s/%s-hint/%s" % (rec["kind"], rec["hint"], "not-opened" if not rec["opened"] else "opened-or-foreign-master"),
+                    "repository with %s key files: password of kind %s with hint %s: opened=%s same_master=%s" % (
+                        rec["nkeys"], rec["kind"], rec["hint"], rec["opened"], rec["same_master"]), rec)
     return repo_common.finish_trace(ctx, out, "model_checking",
-                                    extra_cov={"design_model_runs": design, "histories_generated_by_tlc": len(hs), "password_probe_records_checked_by_tlc": n,
-                                               "records_rejected": len(bad)})
+                                    extra_cov={"design_model_runs": design, "histories_generated_by_tlc": len(hs), "password_probe_records_checked_by_tlc": n, "key_limit_probe_records_checked_by_tlc": n2,
+                                               "records_rejected": len(bad) + len(bad2)})
